@@ -278,6 +278,14 @@ def accRuns (inp : AccessIn) (c : String) (w : List Char) : List Run :=
 
 def consecPairs {α} (l : List α) : List (α × α) := l.zip (l.drop 1)
 
+/-- the classes of names the property itself lists as non-canonical (alt, random, Un, HLA, EBV,
+    mitochondrial), written out independently of the rule read from the source -/
+def propertyNoncanonicalClasses : List (Bool × List (Option Char) × Bool) :=
+  [(false, "_alt".toList.map some, true), (false, "_random".toList.map some, true),
+   (false, "Un_".toList.map some, false), (true, "HLA-".toList.map some, false),
+   (true, "chrEBV".toList.map some, true), (false, "chrM".toList.map some, false),
+   (false, "MT".toList.map some, false)]
+
 /-- clauses for `do_access` -/
 def accessSpecB (inp : AccessIn) (out : Table) : List String :=
   let kept := inp.seqs.filter (fun sq => !inp.skip || isCanonicalName sq.1)
@@ -294,6 +302,8 @@ def accessSpecB (inp : AccessIn) (out : Table) : List String :=
   (if out.all (fun r => inp.seqs.any (fun sq => sq.1 == r.chrom && 0 ≤ r.s && r.e ≤ (sq.2.length : Int)))
    then [] else ["access_inside_known_sequences"]) ++
   (if dropped.all (fun sq => (rowsFor sq.1).isEmpty) then [] else ["access_noncanonical_dropped_iff_on"]) ++
+  (if inp.seqs.all (fun sq => !(inp.skip && ruleMatches propertyNoncanonicalClasses sq.1.toList) ||
+        (rowsFor sq.1).isEmpty) then [] else ["access_named_classes_dropped"]) ++
   (if perKept (fun c w runs rows => rows.all fun r => (posRange r.s r.e).all fun p =>
         accessibleB inp c w p || smallGap runs p) then []
    else ["access_no_N_or_excluded_unless_bridged"]) ++
